@@ -97,7 +97,7 @@ def utf8_encode(I, ch):
     return [ex(20, 18, (0b11110, 5)), ex(17, 12, (0b10, 2)), ex(11, 6, (0b10, 2)), ex(5, 0, (0b10, 2))]
 
 
-@model(r'^Vec::<.*>::(sort_by|sort|sort_unstable|sort_by_key|dedup|reverse)(?:::<.*>)?$|^(?:core|std)::slice::<impl \[.*\]>::(sort_by|sort|reverse)(?:::<.*>)?$')
+@model(r'^Vec::<.*>::(sort_by|sort|sort_unstable|sort_by_key|dedup|reverse)(?:::<.*>)?$|^(?:(?:core|std|alloc)::)?slice::<impl \[.*\]>::(sort_by|sort|reverse)(?:::<.*>)?$')
 def m_vec_sort(I, fr, callee, m, args):
     op = m.group(1) or m.group(2)
     s = as_slice(I, args[0])
@@ -118,6 +118,8 @@ def m_vec_sort(I, fr, callee, m, args):
                     break
             out.insert(pos, x)
         items = out
+    elif op in ('sort', 'sort_unstable'):
+        return NotImplemented          # handled by m_sort_plain (natural ordering)
     else:
         raise Unsupported("Vec::" + op)
     I.store_ref(s.base, I.with_items(v, items))
@@ -206,7 +208,7 @@ def mk_slice_iter(I, s, by_ref=True):
     return IterV('slice', base=s.base, start=st, i=0, n=n)
 
 
-@model(r'^(?:core|std)::slice::<impl \[.*\]>::(iter|iter_mut)$|^<&(?:mut )?(?:Vec<.*>|\[.*\]) as IntoIterator>::into_iter$|^Vec::<.*>::(iter|iter_mut)$')
+@model(r'^(?:(?:core|std|alloc)::)?slice::<impl \[.*\]>::(iter|iter_mut)$|^<&(?:mut )?(?:Vec<.*>|\[.*\]) as IntoIterator>::into_iter$|^Vec::<.*>::(iter|iter_mut)$')
 def m_slice_iter(I, fr, callee, m, args):
     return mk_slice_iter(I, args[0])
 
@@ -648,7 +650,7 @@ def collect_into(I, fr, target, xs):
     raise Unsupported("collect into " + target)
 
 
-@model(r'^(?:core|std)::slice::<impl \[.*\]>::(chunks|splitn|split)(?:::<.*>)?$|^(?:core|std)::str::<impl str>::(chars|split|splitn|bytes)(?:::<.*>)?$')
+@model(r'^(?:(?:core|std|alloc)::)?slice::<impl \[.*\]>::(chunks|splitn|split)(?:::<.*>)?$|^(?:(?:core|std|alloc)::)?str::<impl str>::(chars|split|splitn|bytes)(?:::<.*>)?$')
 def m_slice_iters(I, fr, callee, m, args):
     op = m.group(1) or m.group(2)
     s = as_slice(I, args[0])
@@ -932,7 +934,7 @@ def m_entry(I, fr, callee, m, args):
 from .models import subslice, check_bounds_or_panic, band   # noqa: E402
 
 
-@model(r'^(?:core|std)::slice::<impl \[.*\]>::(split_at|split_at_mut|split_first|split_last|starts_with|ends_with|contains|swap|fill)(?:::<.*>)?$')
+@model(r'^(?:(?:core|std|alloc)::)?slice::<impl \[.*\]>::(split_at|split_at_mut|split_first|split_last|starts_with|ends_with|contains|swap|fill)(?:::<.*>)?$')
 def m_slice_more(I, fr, callee, m, args):
     op = m.group(1)
     s = as_slice(I, args[0])
@@ -1066,3 +1068,56 @@ def m_map_extend(I, fr, callee, m, args):
             mv, _ = map_insert(I, mv, x.f[0], x.f[1])
     I.store_ref(ref, mv)
     return UNIT
+
+
+# ------------------------------------------------------------------ ordering of std values (sort, Ord)
+def cmp_lt(I, a, b):
+    """z3 Bool: a < b for scalars / refs to scalars / IpAddr / byte arrays (lexicographic)"""
+    a, b = deref_val(I, a), deref_val(I, b)
+    if isinstance(a, Sc):
+        return zbool(I.binop('Lt', a, b))
+    if isinstance(a, En) and a.ty == 'IpAddr':
+        if a.var != b.var:
+            return z3.BoolVal(a.var == 'V4')          # V4 < V6 (declaration order)
+        return cmp_lt(I, a.f[0], b.f[0])
+    if isinstance(a, Agg) and a.ty in ('Ipv4Addr', 'Ipv6Addr'):
+        return cmp_lt(I, a.f[0], b.f[0])
+    if isinstance(a, Agg) and a.ty in ('array', 'tuple'):
+        lt = z3.BoolVal(False)
+        for x, y in reversed(list(zip(a.f, b.f))):
+            lt = z3.Or(cmp_lt(I, x, y), z3.And(I.value_eq(deref_val(I, x), deref_val(I, y)), lt))
+        return lt
+    raise Unsupported("ordering of %r" % (a,))
+
+
+@model(r'^(?:(?:core|std|alloc)::)?slice::<impl \[.*\]>::(sort|sort_unstable)$|^Vec::<.*>::(sort|sort_unstable)$')
+def m_sort_plain(I, fr, callee, m, args):
+    s = as_slice(I, args[0])
+    v = I.load_ref(s.base)
+    out = []
+    for x in I.container_items(v):
+        pos = len(out)
+        while pos > 0 and I.ctx.branch(cmp_lt(I, x, out[pos - 1])):
+            pos -= 1
+        out.insert(pos, x)
+    I.store_ref(s.base, I.with_items(v, out))
+    return UNIT
+
+
+@model(r'^<(HashSet|HashMap)<.*> as PartialEq>::(eq|ne)$')
+def m_hash_coll_eq(I, fr, callee, m, args):
+    a, b = I.load_ref(args[0]), I.load_ref(args[1])
+    if len(a.entries) != len(b.entries):
+        e = z3.BoolVal(False)
+    else:
+        conj = []
+        for ka, va in a.entries:
+            alts = []
+            for kb, vb in b.entries:
+                c = eq_dispatch_deep(I, ka, kb)
+                if m.group(1) == 'HashMap':
+                    c = z3.And(c, eq_dispatch_deep(I, va, vb))
+                alts.append(c)
+            conj.append(z3.Or([z3.BoolVal(False)] + alts))
+        e = z3.And([z3.BoolVal(True)] + conj)
+    return sc_from(e if m.group(2) == 'eq' else z3.Not(e), 'bool')
